@@ -25,13 +25,16 @@ LEVEL_TEXT = (
 
 
 class BufCfg(ThreadCfg):
+    IN = "event_list"  # set from the source in run(): first parameter of _group_events
+    OUT = "grouped"  # the list _group_events returns
+
     def loop_elem(self, node, iter_term, st):
         t = ast.unparse(iter_term)
-        if t == "event_list":
+        if t == self.IN:
             return ast.Name("REC", ast.Load())
-        if t.startswith("enumerate(") and "grouped" in t:
+        if t.startswith("enumerate(") and re.search(rf"\b{re.escape(self.OUT)}\b", t):
             return ast.Tuple([ast.Name("IDX", ast.Load()), ast.Name("OLD", ast.Load())], ast.Load())
-        if "_group_events(" in t or t in ("grouped_events",):
+        if "_group_events(" in t:
             return ast.Name("G", ast.Load())
         return None
 
@@ -76,26 +79,33 @@ def run(ctx) -> None:
     rf = P.find_method("InotifyBuffer", "run")
     if gf is None or rf is None:
         raise AnalysisError("anchor vanished: InotifyBuffer._group_events / run")
+    from ..model import returned_name
+
+    IN = [a.arg for a in gf.node.args.args][1] if len(gf.node.args.args) > 1 else None
+    OUT = returned_name(gf.node)
+    if IN is None or OUT is None:
+        raise AnalysisError("_group_events: input parameter / returned list not identified")
+    cfg.IN, cfg.OUT = IN, OUT
     gpaths = Enumerator(cfg).run(gf, selfcls="InotifyBuffer")
-    loops = find_loops(gpaths, lambda e: e.text == "event_list")
+    loops = find_loops(gpaths, lambda e: e.text == IN)
     if len(loops) != 1:
         raise AnalysisError("anchor vanished: loop over event_list in _group_events")
     body = loops[0].extra["paths"]
     ctx.count("group_paths", len(body))
     # the function returns the list it filled
-    ctx.check(all(p.outcome[0] == "return" and ast.unparse(p.outcome[1]) == "grouped" for p in gpaths), RO, "_group_events returns the grouped list", "does not return the list it filled", gf.loc)
+    ctx.check(all(p.outcome[0] == "return" and ast.unparse(p.outcome[1]) == OUT for p in gpaths), RO, "_group_events returns the grouped list", "does not return the list it filled", gf.loc)
     pred_terms = []
     for p in body:
         c = p.conds()
         placements = []
         removes = [e for e in p.evs if e.kind == "call" and e.extra.get("func") == "self._queue.remove"]
         for e in p.evs:
-            if e.kind == "call" and e.extra.get("func") == "grouped.append":
+            if e.kind == "call" and e.extra.get("func") == f"{OUT}.append":
                 t = e.extra.get("term").args[0]
                 placements.append(("append", t, e))
-            elif e.kind == "setitem" and e.extra.get("container") == "grouped":
+            elif e.kind == "setitem" and e.extra.get("container") == OUT:
                 placements.append(("replace", e.extra.get("term"), e))
-            elif e.kind == "call" and re.fullmatch(r"grouped\.(insert|extend|appendleft)", e.extra.get("func", "")):
+            elif e.kind == "call" and re.fullmatch(rf"{re.escape(OUT)}\.(insert|extend|appendleft)", e.extra.get("func", "")):
                 placements.append(("other", None, e))
         # final iteration of the inner search (break) carries the in-place replacement
         desc = f"[{p.sig()[:110]}]"
@@ -169,7 +179,7 @@ def run(ctx) -> None:
 
     # ---------------------------------------------------------------- hand-over loop
     rpaths = Enumerator(cfg).run(rf, selfcls="InotifyBuffer")
-    hl = find_loops(rpaths, lambda e: "_group_events(" in e.text or e.text == "grouped_events")
+    hl = find_loops(rpaths, lambda e: "_group_events(" in e.text)
     if not hl:
         raise AnalysisError("anchor vanished: hand-over loop in InotifyBuffer.run")
     H = hl[0]
